@@ -286,6 +286,45 @@ def translate(repo):
                 ok = True
     if not ok:
         fail(fn, "import_filtered_genes does not index by Gene_Name with verify_integrity=True", fname)
+    # the TE import refuses a file without one of the columns the results depend on: `missing = [c for c in (<names>) if c not in
+    # <frame>.columns]` followed, before anything is returned, by `if missing: ... raise`
+    fname = "transposon/import_filtered_TEs.py"
+    tree = ast.parse(open(os.path.join(repo, fname)).read())
+    fn = find_def(tree, None, "import_filtered_TEs", fname)
+    TCODE = {"Chromosome": 0, "Start": 1, "Stop": 2, "Order": 3, "SuperFamily": 4, "Strand": 5, "Length": 6}
+    frames = [ast.unparse(st.targets[0]) for st in ast.walk(fn) if isinstance(st, ast.Assign) and len(st.targets) == 1 and
+              isinstance(st.value, ast.Call) and dotted(st.value.func) in ("pd.read_csv", "pandas.read_csv")]
+    req, mname, pos = None, None, None
+    for i, st in enumerate(fn.body):
+        if isinstance(st, ast.Assign) and len(st.targets) == 1 and isinstance(st.targets[0], ast.Name) and isinstance(st.value, ast.ListComp):
+            lc = st.value
+            if len(lc.generators) == 1 and isinstance(lc.generators[0].target, ast.Name) and isinstance(lc.elt, ast.Name) and \
+                    lc.elt.id == lc.generators[0].target.id and isinstance(lc.generators[0].iter, (ast.Tuple, ast.List)) and \
+                    all(isinstance(x, ast.Constant) and isinstance(x.value, str) for x in lc.generators[0].iter.elts) and len(lc.generators[0].ifs) == 1:
+                t = lc.generators[0].ifs[0]
+                if isinstance(t, ast.Compare) and len(t.ops) == 1 and isinstance(t.ops[0], ast.NotIn) and isinstance(t.left, ast.Name) and \
+                        t.left.id == lc.elt.id and isinstance(t.comparators[0], ast.Attribute) and t.comparators[0].attr == "columns" and \
+                        ast.unparse(t.comparators[0].value) in frames:
+                    req, mname, pos = [x.value for x in lc.generators[0].iter.elts], st.targets[0].id, i
+    if req is None:
+        fail(fn, "import_filtered_TEs does not collect the required columns that the file lacks", fname)
+    refused = False
+    for st in fn.body[pos + 1:]:
+        if isinstance(st, ast.Return):
+            break
+        if isinstance(st, ast.Assign) and any(isinstance(t, ast.Name) and t.id == mname for t in st.targets):
+            break
+        if isinstance(st, ast.If) and ((isinstance(st.test, ast.Name) and st.test.id == mname) or ast.unparse(st.test).replace(" ", "") in
+                                       ("len(%s)>0" % mname, "len(%s)!=0" % mname, "%s!=[]" % mname, "len(%s)" % mname)) and \
+                st.body and isinstance(st.body[-1], ast.Raise) and all(isinstance(x, (ast.Assign, ast.Expr, ast.Raise)) for x in st.body):
+            refused = True
+            break
+    if not refused:
+        fail(fn, "import_filtered_TEs does not raise when a required column is missing", fname)
+    codes = [TCODE.get(c, 100 + i) for i, c in enumerate(req)]
+    defs.append("(* import_filtered_TEs: the columns without which the file is refused (%s) *)" % ", ".join(req))
+    defs.append("Definition gen_te_required_columns : list N := [%s]%%N." % "; ".join(str(c) for c in codes))
+    defs.append("Definition gen_te_columns_accepted (header : list N) : bool :=\n  forallb (fun c => existsb (N.eqb c) header) gen_te_required_columns.")
     return defs
 
 
